@@ -106,6 +106,23 @@ func judgeC08Cross(c *Ctx, cs C08Cross) {
 }
 
 func replayC08(c *Ctx, rule string, raw json.RawMessage) {
+	if rule == "C08.multi" {
+		var mc struct {
+			ID      string
+			E1, E2  ev.QS
+			Allowed []ev.QS
+		}
+		if err := json.Unmarshal(raw, &mc); err != nil {
+			fmt.Println("bad case:", err)
+			return
+		}
+		r1, r2 := c.Sat(string(mc.E1), ev.Strs(mc.Allowed)), c.Sat(string(mc.E2), ev.Strs(mc.Allowed))
+		fmt.Printf("Satisfies(%q,%q)=%s\nSatisfies(%q,%q)=%s\n", mc.E1, ev.Strs(mc.Allowed), r1, mc.E2, ev.Strs(mc.Allowed), r2)
+		if r1.Panic != "" || r2.Panic != "" || r1.IsErr != r2.IsErr || r1.OK != r2.OK {
+			c.Violation("spell:"+mc.ID+":multi", "C08.multi", mc, "replayed")
+		}
+		return
+	}
 	if rule == "C08.cross" {
 		var cs C08Cross
 		if err := json.Unmarshal(raw, &cs); err != nil {
@@ -158,6 +175,9 @@ func runC08(c *Ctx, phase string) {
 	c.Floor("pairs_only_valid", int64(len(u.Active)))
 	c.Floor("ids_with_cross_contexts", int64(len(u.Active)))
 	c.Floor("long_list_substitutions", 300)
+	c.Floor("multi_occurrence_substitutions", 20000)
+	c.Floor("multi_occurrence_true", 500)
+	c.Floor("multi_occurrence_false", 500)
 	c.Floor("result_true", 2000)
 	c.Floor("result_false", 2000)
 
@@ -237,6 +257,68 @@ func runC08(c *Ctx, phase string) {
 			c.Inc("ids_with_cross_contexts")
 		}
 		onlyPlusOK := onlyOK && c.Valid(id+"+") && c.Valid(id+"-only+")
+		if laterOK || onlyOK {
+			// the same id several times in ONE expression with different modifiers (X, X+, X WITH e, ...), each occurrence
+			// re-spelled independently (memos keyed by part of a term, de-duplication of "equal" terms)
+			type occ struct {
+				plus bool
+				exc  string
+			}
+			occs := []occ{{false, ""}, {true, ""}, {false, e1}, {true, e1}, {false, e2}}
+			variants := func(o occ) []string {
+				var v []string
+				if o.plus {
+					v = append(v, id+"+")
+					if laterOK {
+						v = append(v, id+"-or-later")
+					}
+					if onlyPlusOK {
+						v = append(v, id+"-only+")
+					}
+				} else {
+					v = append(v, id)
+					if onlyOK {
+						v = append(v, id+"-only")
+					}
+				}
+				if o.exc != "" {
+					for i := range v {
+						v[i] += " WITH " + o.exc
+					}
+				}
+				return v
+			}
+			lists := [][]string{{id}, {id + "+"}, {id + " WITH " + e1}, {r.Pick(partnerTerms)}, {r.Pick(partnerTerms), id + " WITH " + e1}}
+			for j := 0; j < 12; j++ {
+				o1, o2 := occs[r.Intn(len(occs))], occs[r.Intn(len(occs))]
+				if o1 == o2 {
+					continue
+				}
+				tmpl := []string{"%s AND %s", "%s OR %s", "%s AND (%s OR MIT)", "(%s OR ISC) AND %s"}[r.Intn(4)]
+				v1, v2 := variants(o1), variants(o2)
+				for _, list := range lists {
+					var first SatRes
+					var firstE string
+					for x, s1 := range v1 {
+						for y, s2 := range v2 {
+							e := fmt.Sprintf(tmpl, s1, s2)
+							res := c.Sat(e, list)
+							c.Inc("multi_occurrence_substitutions")
+							if x == 0 && y == 0 {
+								first, firstE = res, e
+								c.CountIf(res.Clean() && res.OK, "multi_occurrence_true")
+								c.CountIf(res.Clean() && !res.OK, "multi_occurrence_false")
+								continue
+							}
+							if res.Panic != "" || first.Panic != "" || res.IsErr != first.IsErr || res.OK != first.OK {
+								c.Violation("spell:"+id+":multi", "C08.multi", map[string]any{"id": id, "e1": ev.QS(firstE), "e2": ev.QS(e), "allowed": ev.QSs(list)},
+									"re-spelling one occurrence of %q changes the verdict: Satisfies(%q,%q)=%s but Satisfies(%q,%q)=%s", id, firstE, list, first, e, list, res)
+							}
+						}
+					}
+				}
+			}
+		}
 		for _, pair := range []string{"later", "only", "onlyplus"} {
 			if (pair == "later" && !laterOK) || (pair == "only" && !onlyOK) || (pair == "onlyplus" && !onlyPlusOK) {
 				c.Inc("pairs_skipped_one_spelling_invalid")
